@@ -42,6 +42,9 @@ class QiskitExporter(QCircuitExporter):
             elif issubclass(g.__class__, gates.NopGate):
                 pass
 
+            elif isinstance(g, gates.I):
+                qc.id(w[0])  # qiskit names the identity gate "id", not "i"
+
             elif hasattr(qc, g_name):
                 if p:
                     getattr(qc, g_name)(p, *w)
